@@ -79,3 +79,47 @@ def loc_layer(run, rt, quick):
             else:
                 run.broken_tie("T-LAYER LocSlice", {"divs": divs, "lo": lo, "hi": hi, "model": a[:300], "real": repr((real, rparts, rdivs))[:400]})
     run.section("loc_layer", cases=len(cases), division_vectors=len(divsets), differing=bad)
+    loclist_layer(run, rt, quick, divsets)
+
+
+def loclist_layer(run, rt, quick, divsets):
+    """df.loc[[labels]]: divisions and computed partitions vs the model, for label lists in every order (with repetitions)."""
+    sx, m = common.sx, common.Model()
+    cases, reqs = [], []
+    for divs in divsets[:: (2 if quick else 1)]:
+        df = rt.dx.from_map(_Piece(divs), list(range(len(divs) - 1)), divisions=tuple(divs), meta=_Piece(divs)(0).iloc[:0])
+        parts = [[int(v) for v in _Piece(divs)(i).index] for i in range(len(divs) - 1)]
+        present = sorted({v for p in parts for v in p})
+        pool = present + [v + 1 for v in present if v + 1 <= divs[-1] and v + 1 not in present][:2]      # labels with and without rows
+        lists = [list(p) for k in (1, 2, 3) for p in itertools.permutations(pool, k)]
+        lists += [[a, a] for a in pool[:2]] + [[pool[-1], pool[0], pool[-1]]]
+        if quick:
+            lists = lists[::4]
+        for labels in lists:
+            cases.append((divs, parts, labels, df))
+            reqs.append("(loclist_model %s %s %s)" % (sx(divs), sx(parts), sx(labels)))
+    ans = m.batch(reqs)
+    bad = 0
+    for (divs, parts, labels, df), a in zip(cases, ans):
+        run.count(("loclist", tuple(divs), tuple(labels)), nontrivial=len(labels) >= 2)
+        model = common.parse_sx(a)
+        mdivs, mparts = [int(v) for v in model[0]], [[int(v) for v in p] for p in model[1]]
+        q = try_(lambda: df.loc[labels])
+        rparts = try_(lambda: [[int(v) for v in p.index] for p in exec_expr(q[1].expr.lower_completely())]) if q[0] == "ok" else q
+        rdivs = try_(lambda: [int(v) for v in q[1].divisions]) if q[0] == "ok" else q
+        if rparts[0] == "raise" and all(v not in {x for p in parts for x in p} for v in labels):
+            continue            # pandas raises KeyError when none of the labels exists
+        if rparts[0] == "raise" and "KeyError" in str(rparts[1]):
+            continue            # a missing label: pandas refuses as well
+        if not (rparts[0] == "ok" and rdivs[0] == "ok" and rparts[1] == mparts and rdivs[1] == mdivs):
+            bad += 1
+            witness = None
+            if rparts[0] == "ok" and rdivs[0] == "ok":
+                tb = m.batch(["(truthfulb %s %s)" % (sx(rdivs[1]), sx(rparts[1]))])[0]
+                if tb != "true":
+                    witness = "divisions %s, df.loc[%s] reports divisions %s but its partitions hold %s" % (divs, labels, rdivs[1], rparts[1])
+            if witness:
+                run.violation("label list: " + witness, {"kind": "loclist-layer", "divs": divs, "labels": labels})
+            else:
+                run.broken_tie("T-LAYER LocList", {"divs": divs, "labels": labels, "model": a[:300], "real": repr((rparts, rdivs))[:400]})
+    run.section("loclist_layer", cases=len(cases), differing=bad)
